@@ -274,6 +274,10 @@ BUILTIN_ARRAYS = {
     'cls': z3.ArraySort(Addr, z3.IntSort()),
     'own_obj': z3.ArraySort(Addr, Addr),
     'own_fld': z3.ArraySort(Addr, z3.IntSort()),
+    # ghost: the object an object is a (transitive) deep copy of; a newly allocated object is its own origin.  Written only
+    # at allocation and by the DEEPCOPY contract, both at fresh addresses: the origin of an existing object never changes
+    # (this meta-invariant is assumed wherever `orig` is havoced, see calls.havoc / loops._havoc_into)
+    'orig': z3.ArraySort(Addr, Addr),
 }
 LIST_ARRAYS = ('L_len', 'L_at', 'L_bag')
 DICT_ARRAYS = ('D_has', 'D_val', 'D_size', 'D_keyat')
@@ -361,6 +365,7 @@ class H:
     def allocated(self, a): return z3.And(a >= 0, a < self.alloc)
     def own_obj(self, l): return z3.Select(self.arr['own_obj'], l)
     def own_fld(self, l): return z3.Select(self.arr['own_fld'], l)
+    def orig(self, x): return z3.Select(self.arr['orig'], x)
 
     # convenience for contracts: membership of a reference in a list
     def inl(self, l, a):
